@@ -216,3 +216,118 @@ def all_strings(V, maxlen):
         frontier = [s + [a] for s in frontier for a in V]
         out += frontier
     return out
+
+
+# ----------------------------------------------------------------------------- automata
+WFSA_SHAPES = ["plain", "multi_init_final", "parallel", "eps", "eps_cycle", "dead_states", "named_like_symbols", "acyclic", "init_is_final", "empty"]
+
+
+def gen_wfsa(rng, shape=None, nstates=None, nsyms=None, weights=None, allow_eps=True):
+    """Returns (desc, shape); ε-row sums ≤ 1/2 so that ε-closures converge geometrically."""
+    shape = shape or rng.choice(WFSA_SHAPES)
+    n = nstates or rng.choice([1, 2, 2, 3, 3, 4])
+    syms = TERMS[: (nsyms or rng.choice([1, 2, 2, 3]))]
+    W = weights or SMALL + [Fraction(1), Fraction(3, 4)]
+    states = list(range(n))
+    if shape == "named_like_symbols":
+        states = (syms + ["q", "r", "s"])[:n]
+    arcs = []
+    narcs = rng.randint(n, 2 * n + 2)
+    acyc = shape == "acyclic"
+    for _ in range(narcs):
+        i, j = rng.randrange(n), rng.randrange(n)
+        if acyc:
+            if i == j:
+                continue
+            i, j = min(i, j), max(i, j)
+        arcs.append([states[i], rng.choice(syms), states[j], rng.choice(W)])
+    start = [[states[0], rng.choice(W)]]
+    stop = [[states[-1], rng.choice(W)]]
+    if shape == "multi_init_final":
+        for q in rng.sample(states, rng.randint(1, n)):
+            start.append([q, rng.choice(W)])
+        for q in rng.sample(states, rng.randint(1, n)):
+            stop.append([q, rng.choice(W)])
+    if shape == "init_is_final":
+        stop.append([states[0], rng.choice(W)])
+    if shape == "parallel" and arcs:
+        for a in rng.sample(arcs, min(2, len(arcs))):
+            arcs.append([a[0], a[1], a[2], rng.choice(W)])          # same triple again: accumulates
+            arcs.append([a[0], rng.choice(syms), a[2], rng.choice(W)])
+    if shape in ("eps", "eps_cycle") and allow_eps:
+        for _ in range(rng.randint(1, 3)):
+            i, j = rng.randrange(n), rng.randrange(n)
+            if shape == "eps" and i >= j:
+                if i == j:
+                    continue
+                i, j = j, i
+            arcs.append([states[i], "", states[j], rng.choice(SMALL)])
+        if shape == "eps_cycle":
+            i = rng.randrange(n)
+            arcs.append([states[i], "", states[i], rng.choice(SMALL)])
+            if n > 1:
+                j = (i + 1) % n
+                arcs.append([states[i], "", states[j], rng.choice(SMALL)])
+                arcs.append([states[j], "", states[i], rng.choice(SMALL)])
+    if shape == "dead_states":
+        arcs.append([states[0], rng.choice(syms), "dead", rng.choice(W)])
+        arcs.append(["dead", rng.choice(syms), "dead", rng.choice(W)])
+        arcs.append(["unreach", rng.choice(syms), states[-1], rng.choice(W)])
+    if shape == "empty":
+        stop = []
+    # ε rows ≤ 1/2
+    for _ in range(10):
+        rows = {}
+        for i, a, j, w in arcs:
+            if a == "":
+                rows[i] = rows.get(i, 0) + w
+        bad = {i for i, v in rows.items() if v > Fraction(1, 2)}
+        if not bad:
+            break
+        for a in arcs:
+            if a[1] == "" and a[0] in bad:
+                a[3] = a[3] / 2
+    desc = {"start": [[q, frac_str(w)] for q, w in start], "stop": [[q, frac_str(w)] for q, w in stop],
+            "arcs": [[i, a, j, frac_str(w)] for i, a, j, w in arcs], "syms": syms}
+    return desc, shape
+
+
+def wfsa_to_bool(desc):
+    return {"start": [[q, True] for q, _ in desc["start"]], "stop": [[q, True] for q, _ in desc["stop"]],
+            "arcs": [[i, a, j, True] for i, a, j, _ in desc["arcs"]], "syms": desc["syms"]}
+
+
+def eps_acyclic(desc):
+    g = {}
+    for i, a, j, _ in desc["arcs"]:
+        if a == "":
+            g.setdefault(symkey_(i), set()).add(symkey_(j))
+    seen, stack = {}, []
+
+    def dfs(u):
+        seen[u] = 1
+        for v in g.get(u, ()):
+            if seen.get(v) == 1:
+                return False
+            if v not in seen and not dfs(v):
+                return False
+        seen[u] = 2
+        return True
+    return all(dfs(u) for u in list(g) if u not in seen)
+
+
+def symkey_(x):
+    import json
+    return json.dumps(x, sort_keys=True)
+
+
+def wfsa_states(desc):
+    out = []
+    for q, _ in desc["start"] + desc["stop"]:
+        if q not in out:
+            out.append(q)
+    for i, _, j, _ in desc["arcs"]:
+        for q in (i, j):
+            if q not in out:
+                out.append(q)
+    return out
